@@ -199,3 +199,16 @@ def trace_inclusion(ctx, meta):
     ctx.cov['t2_traces'] = {'accepted': len(cases) - len(bad), 'rejected': len(bad), 'events': sum(len(c['trace']) for c in cases)}
     if cases:
         ctx.sample({'t2_trace': {k: cases[0][k] for k in ('optimizer', 'n_agents', 'n_iterations', 'trace')}})
+
+
+def nonvacuity(ctx, meta, only=None):
+    """The theorems are conditional on `run p o x0 = Some ...`: check that every regenerated program has a successful
+    execution (Analysis/Witness.v: oracle synthesised by a default policy, then `run` evaluated on it by vm_compute), so that an
+    ill-scoped translation cannot make them hold vacuously."""
+    vd = verdicts(ctx, ['Analysis.Witness'], 'nonvacuous', name='nonvacuous')
+    if vd is None:
+        return
+    for o in OPTS:
+        if o in meta and (only is None or o in only):
+            ctx.oblige('non-vacuity: prog_%s runs to completion on a synthesised oracle (3 agents x 2 iterations and 1 agent x 1 iteration)' % o,
+                       vd.get(o, False), 'the IR semantics gets stuck on the regenerated program: ill-scoped reference or register (translator defect?)')
